@@ -1,9 +1,57 @@
-"""Overlay generation from /repo's current files (import rewrite for the sync shim, seam redirections)."""
+"""Overlay generation from /repo's current files.
+
+kinds:
+  shim:<file>,<file>,...   rewrite the imports "sync" / "sync/atomic" of the listed repository files
+                           to the shim packages verif/shim/vsync and verif/shim/vatomic
+"""
 import os, json, re
 
 REPO = "/repo"
 
 
+def rewrite_sync_imports(src):
+    n = 0
+    def sub_sync(m):
+        nonlocal n
+        n += 1
+        return m.group(1) + 'sync "verif/shim/vsync"'
+    def sub_atomic(m):
+        nonlocal n
+        n += 1
+        return m.group(1) + 'atomic "verif/shim/vatomic"'
+    out = re.sub(r'(^\s*)"sync"', sub_sync, src, flags=re.M)
+    out = re.sub(r'(^\s*)"sync/atomic"', sub_atomic, out, flags=re.M)
+    return out, n
+
+
 def generate(kind, outdir):
     os.makedirs(outdir, exist_ok=True)
-    raise RuntimeError("no overlay kinds defined yet")
+    notes = {}
+    replace = {}
+    if kind.startswith("shim:"):
+        files = kind[5:].split(",")
+        done = []
+        for rel in files:
+            path = os.path.join(REPO, rel)
+            if not os.path.exists(path):
+                notes["overlay_missing:" + rel] = "file gone"
+                continue
+            src = open(path).read()
+            out, n = rewrite_sync_imports(src)
+            if n == 0:
+                notes["overlay_nosync:" + rel] = "no sync import"
+                continue
+            dst = os.path.join(outdir, rel.replace("/", "__"))
+            with open(dst, "w") as f:
+                f.write(out)
+            replace[path] = dst
+            done.append(rel)
+        if not done:
+            raise RuntimeError("no file could be instrumented")
+        notes["overlay_instrumented"] = ",".join(done)
+    else:
+        raise RuntimeError("unknown overlay kind %r" % kind)
+    oj = os.path.join(outdir, "overlay.json")
+    with open(oj, "w") as f:
+        json.dump({"Replace": replace}, f)
+    return oj, notes
